@@ -15,7 +15,7 @@ from kernpy.core.importer import Importer
 from kernpy.core import tokens as tk
 
 META = {
-    'outside': ['more than 4 live columns; more than 3 (quick) / 4 (thorough) operator rows; *+ and *x; several header rows',
+    'outside': ['more than 4 live columns / 3 (quick) / 4 (thorough) operator rows, except for the 12 curated deep layouts (nested splits, several join groups on a line, 5 columns); *+ and *x; several header rows',
                 'a data line with FEWER cells than live paths (the property only speaks about surplus cells)',
                 'global comments inside the spines (kernpy attaches one node per live path; listing order is C17\'s)'],
     'assumptions': [],
@@ -41,6 +41,7 @@ def load(tier):
             depth = {1: 4, 2: 3, 3: 2}[n]
         for lay in sp.enumerate_layouts(n, depth):
             LAYOUTS.append((heads, lay))
+    LAYOUTS.extend(sp.curated_layouts())      # deep hand-picked layouts beyond the enumeration depth (nested splits, several join groups, 5 columns)
 
 
 @native
